@@ -477,6 +477,87 @@ Example C03_sql_script_fk_closure_nonvacuous :
   exists os, script_spec true w_cycle = Some os /\ In n_b (tnames os).
 Proof. eexists. split; [vm_compute; reflexivity|]. vm_compute. right. left. reflexivity. Qed.
 
+(** 5d. (round 5b) the pointer-based script of 5c and the name-based [plan_dump] of 5 / 5b are the same plan for a
+    schema-bound client, one schema and distinct table names (SQLite's catalogue): C03_sql_partial and
+    C03_sql_dump_tables are statements about the script of 5c. *)
+From Atlas Require Import Sqlite.ExportRealmLink.
+Theorem C03_sql_script_is_plan_dump :
+  forall (nm : str) (B : xschema), NoDup (map x_name B) ->
+  sqlInspect true [mkRS nm B] = option_map p_changes (plan_dump B).
+Proof. exact sqlInspect_is_plan_dump. Qed.
+Print Assumptions C03_sql_script_is_plan_dump.
+Example C03_sql_script_is_plan_dump_nonvacuous :
+  NoDup (map x_name (rs_tables (hd (mkRS [] []) w_cycle))) /\
+  exists cs, sqlInspect true w_cycle = Some cs /\ List.length cs = 4%nat.
+Proof.
+  split; [|eexists; split; vm_compute; reflexivity].
+  repeat constructor; cbn; intro H; repeat (destruct H as [H|H]; [discriminate|]); exact H.
+Qed.
+
+(** 5d'. (round 5b) the premise of C03_sql_script_creates_before_use_except discharged from SQLite's own name space:
+    for every realm in which no inspected index carries a generated name (sqlite_autoindex...: the only names
+    normalizeIdxName changes) and whose tables and indexes are pairwise distinct, the script is accepted statement by
+    statement and creates exactly the realm's tables, in order.  With C03_sql_script_name_clash_refuted this is exact:
+    the only way the export of a legal catalogue can name an object twice is a renamed UNIQUE-constraint index. *)
+From Atlas Require Import Sqlite.ExportRealmPlain.
+Theorem C03_sql_script_creates_before_use_plain :
+  forall (bound : bool) (r : realm) (os : list obj),
+  script_spec bound r = Some os ->
+  Forall (fun x => Forall plain_idx (t_idx (x_t x))) (all_tables r) ->
+  NoDup (cat_names (all_tables r)) ->
+  exists c', replay false empty_cat os = Some c' /\ c_tables c' = map x_name (all_tables r).
+Proof. exact dump_replays_plain. Qed.
+Print Assumptions C03_sql_script_creates_before_use_plain.
+Example C03_sql_script_creates_before_use_plain_nonvacuous :
+  Forall (fun x => Forall plain_idx (t_idx (x_t x))) (all_tables w_cycle) /\ NoDup (cat_names (all_tables w_cycle)).
+Proof. exact w_cycle_plain. Qed.
+
+(** 5e. (round 5b) the indented export  {{ sql . "  " }}  (cmdlog.sqlInspect(report, indent) -> PlanOptions.Indent;
+    sqlx.Builder.NL / MapIndent / WrapIndent; Sqlite/ExportPrintIndent.v, tied in stage print with two indents).
+    Full statement wanted: the indented script recreates the same database as the plain one.  Proved, for EVERY table:
+    with the empty indent the text is the plain CREATE TABLE; with ANY indent made of white space the indented text
+    fails exactly when the plain one fails and differs from it in white space only ([sq] removes the bytes of
+    strings.TrimSpace's ASCII class).  Missing: SQLite's reading of the two texts (white space is insignificant outside
+    literals: the engine is outside the proofs; observed through the CLI loop of stage cli), and the regex recovery on
+    the stored indented text (observed: sql-indent-reinspect). *)
+From Atlas Require Import Sqlite.ExportPrintIndent Sqlite.ExportPrintIndentProofs.
+Theorem C03_indent_empty_is_plain : forall x : xtable, print_table_ind [] x = print_table x.
+Proof. exact print_table_ind_nil. Qed.
+Print Assumptions C03_indent_empty_is_plain.
+Theorem C03_indent_whitespace_only :
+  forall (ind : bytes) (x : xtable), forallb is_go_space ind = true ->
+  match print_table_ind ind x, print_table x with
+  | Some a, Some a' => sq a = sq a'
+  | None, None => True
+  | _, _ => False
+  end.
+Proof. intros ind x H. exact (print_table_ind_ws ind H x). Qed.
+Print Assumptions C03_indent_whitespace_only.
+Example C03_indent_nonvacuous :
+  print_table_ind [32;32]%N wi_x <> print_table wi_x /\
+  (exists a a', print_table_ind [32;32]%N wi_x = Some a /\ print_table wi_x = Some a' /\ sq a = sq a' /\ In ch_nl a /\ ~ In ch_nl a').
+Proof. exact wi_x_text. Qed.
+
+(** 5f. (round 5b) fillChecks on the CHECK list of the INDENTED CREATE TABLE -- the text SQLite stores when the script of
+    `schema inspect --format '{{ sql . "  " }}'` is executed: after ANY text free of the letters CHECK, the constraints
+    each written after a comma and ANY white space (new line + any indentation), then ANY text free of those letters
+    (new line, closing parenthesis, options): fillChecks returns exactly the constraints, in order.  This is 2. with
+    the separator of the indented printer.  Missing: the decomposition of [print_table_ind] into this shape (the
+    analogue of 2b; the CLI loop of stage cli observes the recovery on the real indented text instead). *)
+From Atlas Require Import Sqlite.ExportIndentCheckProofs.
+Theorem C03_regex_inverts_indented_checks_partial :
+  forall (x : bytes) (l : list (bytes * (option bytes * bytes))) (post : bytes),
+  occurs_ci K_CHECK x = false ->
+  Forall (fun p => forallb ExportModel.is_space (fst p) = true /\ check_ok (snd p)) l ->
+  occurs_ci K_CHECK post = false -> (l = [] -> occurs_ci K_CHECK (x ++ post) = false) ->
+  fill_checks (x ++ checks_text_ws l ++ post) = map snd l.
+Proof. exact fill_checks_inverts_indented. Qed.
+Print Assumptions C03_regex_inverts_indented_checks_partial.
+Example C03_regex_inverts_indented_checks_nonvacuous :
+  Forall (fun p => forallb ExportModel.is_space (fst p) = true /\ check_ok (snd p)) w_ind_l /\
+  fill_checks w_ind_text = w_cks /\ In ch_nl w_ind_text.
+Proof. split; [exact (proj1 w_ind_checks)|]. split; [exact (proj2 w_ind_checks)|]. vm_compute. tauto. Qed.
+
 From Atlas Require Import Diff.Schema Sqlite.ExportColumnProofs.
 Theorem C03_regex_inverts_printer_genexpr_table_except :
   forall x cols1 c cols2 e ty txt,
